@@ -67,7 +67,7 @@ Example C18_small_sequences :
   = true.
 Proof. vm_compute. reflexivity. Qed.
 
-Require Import Matcher Builder Pipeline PipelineFacts Machine MachineEq MachineInst.
+Require Import Matcher Builder Pipeline PipelineFacts Machine MachineEq MachineC MachineCEq MachineInst.
 
 (* The token queue is an implementation detail: in stop-at-first-error mode Parser.parse -- with its queue, its
    look-ahead methods that push tokens back, its scanner, fuel and counters -- computes exactly the queue-free
@@ -107,3 +107,36 @@ Example C18_queue_free_machine_sample :
   | None => False
   end.
 Proof. vm_compute. split; [discriminate | reflexivity]. Qed.
+
+(* The same in the default, error-collecting mode: Parser.parse computes the queue-free machine of MachineC.v, which
+   threads the list of collected errors through the same walk -- an error raised by the matcher or the builder is
+   appended (unless an error with the same message is there already) and the walk goes on as if the match had failed /
+   the builder call had returned; an unexpected token is appended and the walk resumes from the state's recovery target
+   with the next token; the walk stops when the list outgrows the cap.  Same outcome (accepted with no error, or
+   rejected with exactly that list of errors), same matcher state, same builder state. *)
+Theorem C18_queue_free_machine_collecting : forall m b src, wf_ms m ->
+  pc_rel (parse_tokens false (scan src) m b) (machine_collecting_source m b src).
+Proof. exact source_machine_collecting. Qed.
+Print Assumptions C18_queue_free_machine_collecting.
+
+Example C18_queue_free_machine_collecting_sample :
+  match new_matcher Dialects.dialects (PyStr.s2l "en") with
+  | Some m =>
+    match machine_collecting_source m (new_builder 0) (PyStr.s2l "Feature: f
+  Scenario: s
+    Given g
+      | a |
+      | b | c |
+    nope
+  Scenario: t
+    Given h
+    nope again
+"), machine_collecting_source m (new_builder 0) (PyStr.s2l "Feature: f
+  Scenario: s
+") with
+    | CReject es _ _, CAccept _ b => map e_kind es = [EUnexpectedToken; EAstBuilder; EUnexpectedToken] /\ builder_result b <> None
+    | _, _ => False
+    end
+  | None => False
+  end.
+Proof. vm_compute. split; [reflexivity | discriminate]. Qed.
